@@ -110,10 +110,60 @@ impl<'a, 'b> Iterator for &'b mut Counting<'a> {
 	}
 }
 
+/// an iterator whose next() itself parses a document on the same thread before handing out its character (a lazily
+/// assembled input): parsing must be re-entrant
+struct Reentrant<'a>(std::str::Chars<'a>);
+impl<'a> Iterator for Reentrant<'a> {
+	type Item = Result<char, Infallible>;
+	fn next(&mut self) -> Option<Self::Item> {
+		let inner = Value::parse_str("{\"k\":[1,\"s\\u00e9\",null]}");
+		assert!(inner.is_ok());
+		let _ = Value::parse_str("[\"abc\\u12");
+		self.0.next().map(Ok)
+	}
+}
+
+thread_local! {
+	/// the code map of the previous successful parse on this thread (for clone_from)
+	static LAST_CM: std::cell::RefCell<Option<CodeMap>> = std::cell::RefCell::new(None);
+}
+
+/// CodeMap as a container: clone, clone_from over a map of another length, iteration by reference / by value, slice views
+fn code_map_routes(cm: &CodeMap) -> Option<String> {
+	let exp = project_cm(cm);
+	let t = |e: &json_syntax::code_map::Entry| json!([e.span.start(), e.span.end(), e.volume]);
+	let c = cm.clone();
+	if project_cm(&c) != exp {
+		return Some("clone".into());
+	}
+	let mut prev = LAST_CM.with(|l| l.borrow_mut().take()).unwrap_or_else(|| cm.clone());
+	prev.clone_from(cm);
+	let after = project_cm(&prev);
+	LAST_CM.with(|l| *l.borrow_mut() = Some(c));
+	if after != exp {
+		return Some("clone_from over the previous code map".into());
+	}
+	if J::Array(cm.as_slice().iter().map(t).collect()) != exp || J::Array(cm.iter().map(|(_, e)| t(e)).collect()) != exp {
+		return Some("as_slice / iter".into());
+	}
+	if J::Array((&*cm).into_iter().map(|(_, e)| t(e)).collect()) != exp || J::Array(cm.clone().into_iter().map(|(_, e)| t(&e)).collect()) != exp {
+		return Some("into_iter".into());
+	}
+	if cm.iter().map(|(i, _)| i).collect::<Vec<_>>() != (0..cm.len()).collect::<Vec<_>>() {
+		return Some("iter indices".into());
+	}
+	let sl: &[json_syntax::code_map::Entry] = cm.as_ref();
+	if sl.len() != cm.len() {
+		return Some("as_ref".into());
+	}
+	iter_routes(&|| cm.iter().map(|(i, e)| json!([i, t(e)])))
+}
+
 /// All entry points on a `str` input under options `o`.
 pub fn run_all_str(s: &str, o: Options) -> Vec<(&'static str, J)> {
 	let mut out = vec![];
 	out.push(("parse_str_with", project_result(guarded(|| Value::parse_str_with(s, o)))));
+	out.push(("parse_utf8_with (re-entrant iterator)", project_result(guarded(|| Value::parse_utf8_with(Reentrant(s.chars()), o)))));
 	out.push(("parse_slice_with", project_result(guarded(|| Value::parse_slice_with(s.as_bytes(), o)))));
 	out.push(("parse_utf8_with", project_result(guarded(|| Value::parse_utf8_with(s.chars().map(Ok::<char, Infallible>), o)))));
 	out.push(("parse_utf8_infallible_with", project_result(guarded(|| Value::parse_utf8_infallible_with(s.chars(), o)))));
@@ -421,6 +471,24 @@ pub fn replay_parse(rep: &mut Report, rec: &J) {
 		rep.count("accepted");
 		if let Ok(Ok((v, cm))) = guarded(|| Value::parse_str_with(&s, o)) {
 			check_lookups(rep, &ctx, &v);
+			// the parsed value is queried from another thread as well (it is Send + Sync: nothing it needs may stay behind in
+			// the thread that built it)
+			if rep.counters["parse_vectors"] % 16 == 0 && matches!(v, Value::Object(_) | Value::Array(_)) {
+				let mut other = Report::new();
+				std::thread::scope(|sc| {
+					sc.spawn(|| check_lookups(&mut other, &ctx, &v));
+				});
+				for (a, ds) in other.mismatches.iter() {
+					for d in ds {
+						rep.mismatch(a, json!({"what": "key lookup from another thread than the one that parsed the document differs from a scan", "detail": d}));
+					}
+				}
+			}
+			match guarded(|| code_map_routes(&cm)) {
+				Ok(None) => (),
+				Ok(Some(route)) => rep.mismatch("C05.container", json!({"what": "the code map, copied / iterated this way, is not the code map that was returned", "route": route, "input": ctx})),
+				Err(p) => rep.mismatch("C05.container", json!({"what": "a CodeMap container operation panicked", "panic": p, "input": ctx})),
+			}
 			if rec.get("nav").is_some() && project(&v) == exp["v"] && project_cm(&cm) == exp["cm"] {
 				crate::navv::NAV_OPTIONS.with(|x| *x.borrow_mut() = o);
 				if let Err(p) = guarded(|| crate::navv::check_nav(rep, &ctx, &s, &v, &cm, &rec["nav"])) {
